@@ -38,7 +38,8 @@ ADDABLE_RESOLVE_ONLY = (
     "numpy.int64", "torch.ComplexFloatStorage",
 )
 BASE_NAMES = ("collections.OrderedDict", "collections.defaultdict")
-NEVER = ("verif_sink.sink",)
+# ("fractions.Decimal" / "decimal.Fraction": members of two addable modules crossed - never added)
+NEVER = ("verif_sink.sink", "fractions.Decimal", "decimal.Fraction")
 # protocol-4 qualified names: a member of a permitted global is a different global, and is not
 # in the allowlist (resolved through STACK_GLOBAL, never called)
 # Python-2 spellings of allow-listed / addable globals, in a protocol-3 pickle (nothing is renamed
